@@ -142,6 +142,12 @@ def cells(tier, seed):
             for ls in (LS if has_ls else [1.0]):
                 for ard in ([False, True] if has_ard else [False]):
                     out.append({"what": "gram", "kernel": name, "n": n, "d": d, "geometry": geom, "ls": ls, "ard": ard, "rep": rep})
+        if dom == "real":
+            # a point set that is DENSE relative to the lengthscale (regular lattice, spacing = half a lengthscale): compactly supported and
+            # oscillating kernels are positive definite only up to a dimension-dependent bound, which sparse point sets never probe
+            for d in ds:
+                for ard in ([False, True] if has_ard else [False]):
+                    out.append({"what": "gram", "kernel": name, "n": DENSE_N[d], "d": d, "geometry": "dense", "ls": 1.0, "ard": ard, "rep": 0})
     out += model_cells(tier)
     out += lattice_cells(tier)
     out += floor_cells(tier)
@@ -149,8 +155,25 @@ def cells(tier, seed):
     return out
 
 
+DENSE_N = {1: 10, 2: 36, 3: 64}
+
+
+def dense_lattice(d):
+    """regular lattice with nearest-neighbour distance 0.5 inside [-2.4, 2.4]^d: 10 points on a line, a 6 x 6 hexagonal patch, a 4 x 4 x 4 cubic block"""
+    if d == 1:
+        return 0.5 * torch.arange(10, dtype=F64).unsqueeze(-1) - 2.25
+    if d == 2:
+        i, j = torch.meshgrid(torch.arange(6, dtype=F64), torch.arange(6, dtype=F64), indexing="ij")
+        pts = torch.stack([i + 0.5 * (j % 2), j * (3 ** 0.5) / 2], -1).reshape(-1, 2)
+        return 0.5 * (pts - pts.mean(0))
+    i = torch.stack(torch.meshgrid(*[torch.arange(4, dtype=F64)] * 3, indexing="ij"), -1).reshape(-1, 3)
+    return 0.5 * (i - i.mean(0))
+
+
 def geometry(g, geom, n, d):
     """n x d inputs in [-1, 1]^d; the degenerate members are deterministic functions of the generic one"""
+    if geom == "dense":
+        return dense_lattice(d)
     x = 2 * util.rand(g, n, d) - 1
     if geom == "generic":
         return x
